@@ -53,8 +53,29 @@ def cases(ctx):
     return out
 
 
+def cleanup_cases(ctx):
+    """an ordinary failure first (the read times out: the server is slow, its reply will still arrive), then the interruption lands
+    inside the close() of the cleanup that follows"""
+    out = []
+    for cfg in CONFIGS:
+        c = dict(cfg, default_noreply=False)
+        for op, rep in OPS:
+            if not rep:
+                continue
+            for fop, frep in FOLLOW:
+                ops = [op, fop, fop]
+                rbo = {0: rep, 1: frep, 2: frep}
+                dry = cs.run_impl(c, ops, [], [], (), None, None, rbo)
+                sends = [i for i, e in enumerate([e for e in dry[1] if e[0] != 8]) if e[0] == 7]
+                if not sends:
+                    continue
+                for kind in BASE:
+                    out.append((c, ops, [0] * (sends[0] + 1) + [(TAGS[kind],)], [(TAGS["SocketTimeout"],)], rbo))
+    return out
+
+
 def correspondence(ctx):
-    cl = cases(ctx) + late_cases(ctx)[::3]
+    cl = cases(ctx) + late_cases(ctx)[::3] + cleanup_cases(ctx)
     hk = cs.handler_kinds()
     hp = cs.pool_handler_kind()
     reqs = []
@@ -80,7 +101,7 @@ def correspondence(ctx):
             "rule": "extracted Client and PooledClient models vs the real classes (results, full socket traces, pool used/free "
                     "counts): 15 operations (incl. quit, cache_memlimit, shutdown) x 3 follow-up operations (twice) x 3 configurations x KeyboardInterrupt/SystemExit/"
                     "greenlet timeout at EVERY non-recv socket call position 0..8 and at each of the first 3 recv calls, and raised inside "
-                    "sendall AFTER the bytes were taken (the reply will arrive); pooled "
+                    "sendall AFTER the bytes were taken (the reply will arrive), and inside the close() of the cleanup after a read timeout; pooled "
                     "with max_pool_size 1 and 2; every case is non-trivial (one interruption)",
             "samples": [{"cfg": repr(c), "ops": repr(o)[:80], "script": repr(s), "choices": repr(h)} for c, o, s, h, r in cl[100:103]],
             "distribution": {"client_cases": len(cl), "pooled_cases": len(pooled)}, "exhaustive": True, "disagreements": dis}
@@ -107,7 +128,7 @@ def late_cases(ctx):
 def search(ctx):
     """Reply ownership on the real classes: bytes are tagged with the call that elicited them."""
     found = []
-    cl = cases(ctx) + late_cases(ctx)
+    cl = cases(ctx) + late_cases(ctx) + cleanup_cases(ctx)
     n = 0
     for c, ops, sc, ch, rbo in cl:
         for pooled_size in (None, 1, "hash", "hash-pooled"):
